@@ -125,7 +125,8 @@ def add_features_calculator(mod: fx.GraphModule, extra_rules: List[Callable] = [
                 raise ValueError("Squeeze without dim not supported")
             assert dim != 0 and len(input_shape) - dim != 0, \
                 "Squeezing the batch is not supported"
-            if dim == 1 or len(input_shape) - dim == 1:
+            if dim == 1:
+                # the (unit) features axis goes away: the next axis takes its place
                 flattened_size = input_shape[2]
                 n.meta['features_calculator'] = FlattenFeaturesCalculator(ifc, flattened_size)
             else:
@@ -217,7 +218,7 @@ def associate_input_features(mod: fx.GraphModule):
                 raise ValueError("Squeeze without dim not supported")
             assert dim != 0 and len(input_shape) - dim != 0, \
                 "Squeezing the batch is not supported"
-            if dim == 1 or len(input_shape) - dim == 1:
+            if dim == 1:
                 n.meta['input_features_set_by'] = prev
             else:
                 n.meta['input_features_set_by'] = prev.meta['input_features_set_by']
